@@ -24,7 +24,10 @@ LINES = {"plain": "a„ÅÇ„ÅÇa", "multi": "„ÅÇa„ÅÇ", "half": "a1-b", "spaces": "a „
 M_EVAL = {"bias": 5, "cw": 1, "tw": 1, "cng": [], "tng": [], "dict": [], "tags": [
     {"token": [HI], "cats": [[[70]], [[71], [72]]], "cng": [], "tng": [], "bias": [1, 2]},
     {"token": [A], "cats": [[[68], [69]]], "cng": [], "tng": [], "bias": [2, 1]},
-    {"token": [65345], "cats": [[[68], [69]]], "cng": [], "tng": [], "bias": [2, 1]}]}
+    {"token": [65345], "cats": [[[68], [69]]], "cng": [], "tng": [], "bias": [2, 1]},
+    # a token whose FIRST tag category is empty (the trainer produces such entries for corpus tokens like `1//X`)
+    {"token": [49], "cats": [[], [[74], [75]]], "cng": [], "tng": [], "bias": [1, 2]},
+    {"token": [65297], "cats": [[], [[74], [75]]], "cng": [], "tng": [], "bias": [1, 2]}]}
 
 
 def stdin_of(names, final_newline):
